@@ -1,8 +1,8 @@
 #!/bin/sh
 # runs every registered check (tier $1, default quick) and prints one summary line per check
 tier="${1:-quick}"
-cd /verif
+cd "$(dirname "$0")" || exit 2
 for p in $(/venv/bin/python -c "import json; print(' '.join(c['property_id'] for c in json.load(open('MANIFEST.json'))['checks']))"); do
-  ./vcheck $p $tier > build/all_$p.log 2>&1; rc=$?
-  echo "$p rc=$rc $(tail -1 build/all_$p.log | cut -c1-200)"
+  mkdir -p build; ( time ./vcheck $p $tier ) > build/all_$p.log 2>&1; rc=$(grep -c "^VIOLATION\|MACHINERY" build/all_$p.log)
+  echo "$p bad=$rc $(grep "^\[$p" build/all_$p.log | cut -c1-160) $(grep "^real" build/all_$p.log)"
 done
